@@ -14,7 +14,7 @@ ENTS = [S(lit='E'), S(lit='F'), S(lit='*')]
 SPECS = {
     # quick: fixed key / entity patterns (building the rooms does not fork); dates and flags symbolic
     'quick': [
-        (dict(admins=['K1', 'K1'], groups=[dict(users=['K2', 'K2', 'K3'], user_admins=['K3'], rights=['E', 'E', '*'])]),
+        (dict(admins=['K1', 'K1'], groups=[dict(users=['K2', 'K2', 'K3'], user_admins=['K3', 'K3'], rights=['E', 'E', '*'])]),
          dict(admins=['K2'], groups=[dict(users=['K1', 'K3'], user_admins=[], rights=['E', '*'])])),
     ],
     # thorough: in addition symbolic keys / entities per entry (every aliasing pattern), two groups per room
@@ -208,7 +208,7 @@ def explore_mutation(ctx, shape, tier, report):
 
 REQUIRED_WITNESSES = ['accepted', 'rejected']
 BOUNDS = {
-    'quick': 'rooms R1,R2 registered + R3 unknown; R1: admin history [K1,K1], one group with user history [K2,K2,K3], user-admin [K3], rights [E,E,*]; '
+    'quick': 'rooms R1,R2 registered + R3 unknown; R1: admin history [K1,K1], one group with user history [K2,K2,K3], user-admin history [K3,K3], rights [E,E,*]; '
              'R2: admin [K2], one group with users [K1,K3], rights [E,*]; caller/authors symbolic in {K1,K2,K3}, entity any string; one mutation-tree node '
              '(every combination of room present/absent, row written/reference, old row none/roomless/in a room, 0-2 nested mutations, by induction any depth); '
              'deletion queries of <= 2 rows; every date 64-bit symbolic, every flag symbolic, ids and sizes symbolic',
